@@ -35,6 +35,7 @@ def _job(args):
     from .alg import Undecided
 
     def _alarm(signum, frame):
+        signal.alarm(5)      # re-armed: an engine layer that catches Undecided and carries on is interrupted again
         raise Undecided("per-obligation time budget exceeded")
     budget = int(os.environ.get("VF_OB_BUDGET", "900" if tier == 'thorough' else "150"))
     try:
@@ -56,11 +57,9 @@ def _job(args):
 
 def _run_R(item, obname, inst, tier, seed):
     from . import rrun
-    res = rrun.prove(item.fn, inst, obname, seed=seed, max_paths=item.max_paths, timeout=item.timeout)
-    out = res.to_json()
-    out["engine"] = "R"
-    out["functions"] = item.functions
-    # bounded stand-in / replay harness: the same contract on random concrete inputs, native float64
+    from .alg import Undecided
+    # bounded stand-in / replay harness first (seconds): the same contract on random concrete inputs, native float64;
+    # its result is kept even when the deductive part below runs out of its time budget
     n = item.bounded_n[1 if tier == 'thorough' else 0]
     rng = np.random.default_rng(seed * 7919 + 13)
     evals = nontriv = rejected = 0
@@ -77,6 +76,8 @@ def _run_R(item, obname, inst, tier, seed):
         except rrun.Reject:
             rejected += 1
             continue
+        except Undecided:
+            raise
         except Exception as e:
             fails.append({"clause": "exception", "detail": f"{type(e).__name__}: {e}",
                           "inputs": {k2: rrun._tolist(v) for k2, v in ctx.inputs.items()}})
@@ -90,8 +91,15 @@ def _run_R(item, obname, inst, tier, seed):
             fails.append({"clause": c, "detail": d, "inputs": {k2: rrun._tolist(v) for k2, v in ctx.inputs.items()}})
         if len(fails) >= 3:
             break
-    out["bounded"] = {"evaluations": evals, "nontrivial": nontriv, "rejected": rejected, "failures": fails[:3],
-                      "samples": samples}
+    bnd = {"evaluations": evals, "nontrivial": nontriv, "rejected": rejected, "failures": fails[:3], "samples": samples}
+    try:
+        res = rrun.prove(item.fn, inst, obname, seed=seed, max_paths=item.max_paths, timeout=item.timeout)
+        out = res.to_json()
+    except Undecided as e:
+        out = {"name": obname, "status": "undecided", "detail": str(e)}
+    out["engine"] = "R"
+    out["functions"] = item.functions
+    out["bounded"] = bnd
     return out
 
 
